@@ -93,7 +93,7 @@ def parse_fini(case):
                 k, v = int(w[i + 1]), int(w[i + 2]); i += 3
                 cur[k] = v; order.append(k)
             else:
-                k = int(w[i + 1]); i += 2
+                k = int(w[i + 1]); i += 3 if w[i] == "r" else 2       # "r k n": n more incarnations
                 # a new incarnation of the index: what was stored belongs to a deleted key.  Without generation
                 # tags "b" does nothing to the key table (harness) - the case is then an ordinary one
                 if GEN["on"]:
@@ -120,10 +120,21 @@ def val(r):
     return r.rng(1, 1 << 62)
 
 
+LONG_N = [65536 + d for d in (-3, -2, -1, 0, 1, 2, 3)] + [2 * 65536 + d for d in (-3, -2, -1, 0, 1, 2, 3)]
+
+
 def gen_unit(ctx, n_random, gen=False):
     r = ctx.rng
     cases = list(WITNESSES)
     if gen:
+        # long histories: tens of thousands of incarnations of one index between the stores and the exit
+        # (the generation stamp must not wrap before 2^32)
+        for k in (0, 16, 700, 1023):
+            for n in LONG_N:
+                P = r.rng(1, 1 << 40)
+                cases.append(finib_case("all", [("s", k, P), ("r", k, n), ("s", k, P)]))       # live value: must be passed
+                cases.append(finib_case([k, k ^ 1], [("s", k, P), ("s", k ^ 1, P + 1), ("r", k, n)]))   # stale: must not
+                cases.append(finib_case([k], [("r", k, n), ("s", k, P), ("r", k ^ 1, 65536), ("s", k ^ 1, 7)]))
         # generation tags: a value left under a deleted incarnation of an index must not reach the destructor
         cases.append(finib_case("all", [("s", 16, 777), ("b", 16)]))
         cases.append(finib_case([16], [("s", 16, 777), ("b", 16), ("s", 16, 5)]))
@@ -408,15 +419,27 @@ def run(ctx):
     GEN["on"] = gen
     unit, libexe, drv = build(ctx, gen, lock)
     q = not ctx.thorough
-    cases = ["variant %d %d" % (int(gen), int(lock)), "consts"] + corpus_cases() + gen_unit(ctx, 500 if q else 8000, gen)
+    cases = ["variant %d %d" % (int(gen), int(lock)), "consts", "widths"] + corpus_cases() + gen_unit(ctx, 500 if q else 8000, gen)
     impl, rc1, raw1 = vlib.run_lines([unit], cases, timeout=900)
     model, rc2, raw2 = vlib.run_lines([drv], cases, timeout=900)
     diffs = vlib.diff_lines(cases, impl, model)
+    # width obligation from the current tree: both generation fields 4 bytes (the model's 2^32)
+    wi = cases.index("widths")
+    width_msg, widths = None, None
+    try:
+        widths = tuple(int(x) for x in impl[wi].split()[1:3])
+        if gen and (widths[0] != widths[1] or widths[0] < 4):
+            width_msg = ("the generation fields are %d bytes in the key table and %d bytes in the tree slot; the model "
+                         "(generation column modulo 2^32; C10_fresh_key_null: fewer than 2^32 - 1 operations) needs both "
+                         "to be (at least) 4-byte counters of the same width" % widths)
+    except (IndexError, ValueError):
+        width_msg = "the harness did not report the widths of the generation fields"
+    diffs = [d for d in diffs if d[1] != "widths"]
     failing = []
     ncalls = nnull = nfrees = 0
     sizes = {}
     for i, c in enumerate(cases):
-        if c == "consts" or c.startswith("variant"):
+        if c in ("consts", "widths") or c.startswith("variant"):
             continue
         out = impl[i] if i < len(impl) else "<no output>"
         msg = oracle_unit(c, out)
@@ -448,7 +471,8 @@ def run(ctx):
         elif dis:
             lib_fail.append((lib_case_text(*case), out[-400:], None))
 
-    ctx.cov["variant"] = {"source_has_generation_tags": gen,
+    ctx.cov["variant"] = {"source_has_generation_tags": gen, "generation_field_bytes": widths,
+                          "long_histories": {"cycles": LONG_N, "cases": 3 * 4 * len(LONG_N) if gen else 0},
                           "walk": "a slot recorded under another generation than the index' current one is passed as NULL "
                                   "(C11_stale_not_passed)" if gen else "no generation tags (kg = 0 everywhere)"}
     ctx.cov["correspondence"] = {
@@ -492,6 +516,10 @@ def run(ctx):
             len(diffs) + lib_dis, c[:200], (" (%d of %d disagreeing cases behave like the walk before commit 90cf288)" % old_like) if old_like else ""),
             {"theorem_or_correspondence": "correspondence Tls/TlsDestroyModel.v <-> myth_tls_tree_fini (src/myth_tls_func.h)",
              ("case" if diffs else "lib_case"): c, "observed": a[:2000], "expected": b[:2000]}, found=False)
+    if width_msg and not failing and not [x for x in lib_fail if x[2]]:
+        ctx.violation("assumption", width_msg, {"theorem_or_correspondence": "32-bit generation counter assumed by the model "
+                      "(Tls/TlsKeysModel.v GEN_MOD; C11_exact is stated for the generation column the walk reads)",
+                      "observed": "sizeof(gen) = %s" % (widths,), "expected": "(4, 4)"}, found=False)
     if broken:
         ctx.violation("proof", "theorem(s) no longer check: " + ", ".join(broken),
                       {"theorem_or_correspondence": ", ".join(broken), "log": getattr(ctx, "proof_log", log[-3000:])}, found=False)
